@@ -98,7 +98,7 @@ class GaussianConv(Module):
         norm = math.sqrt(2 * math.pi)
         for size, std, mgrid in zip(kernel_size, sigma, mgrids):
             mean = (size - 1) / 2
-            kernel *= 1 / (std * norm) * torch.exp(-(((mgrid - mean) / std) ** 2) / 2)
+            kernel = kernel * (1 / (std * norm) * torch.exp(-(((mgrid - mean) / std) ** 2) / 2))
         # Make sure sum of values in gaussian kernel equals 1.
         kernel = kernel.div_(kernel.sum())
         # Reshape to depthwise convolutional weight
